@@ -11,8 +11,8 @@ def textOp (fn : String) (a : Str) (b : Str) : Json :=
   | "tools_indent" => ok (toolsIndent a)
   | "remove_bom" => ok (removeBom a)
   | "strip_empty_lines" => ok (stripEmptyLines a)
-  | "remove_indentation" => encPy (removeIndentation a)
-  | "norm" => encPy (norm a)
+  | "remove_indentation" => ok (removeIndentation a)
+  | "norm" => ok (norm a)
   | "doublequote_string" => encPy (doublequoteString a)
   | "prepare_text_for_dbml" => ok (prepareTextForDbml a)
   | "quote_string" => ok (quoteString a)
